@@ -98,7 +98,7 @@ func verifIsSpace(c byte) bool {
 // non-white-space bytes, and parsing the printed form of the result gives the same sentence.
 //
 //verif:run quick n=0..5
-//verif:run thorough n=6..7
+//verif:run thorough n=5
 func VerifC09Parse(n int) {
 	s := verifString("s", n)
 	for i := 0; i < n; i++ {
